@@ -118,7 +118,16 @@ def schedule_shard(params, rec):
                     (2, False), (1, True)][wi % 8]
             order, cross = kind
             rec.distinct("kernels_stressed", f"order{order}/{'csd' if cross else 'auto'}")
-            if shape == "many-tiny":
+            if (wi + (0 if layer == "workqueue" else 1)) % 2 == 0 and rng.random() < 0.8:
+                shape = "repeated-starts"
+            if shape == "repeated-starts":
+                # segment shift below one sample: runs of identical start indices, so that
+                # neighbouring iterations (and worker-block boundaries) see the same segment
+                L = int(rng.choice([8, 16]))
+                N = int(rng.choice([20000, 50000]))
+                olap = float(rng.choice([0.9, 0.95, 0.97])) if L == 8 else float(rng.choice([0.95, 0.97]))
+                rec.count("schedule_workloads_with_repeated_starts")
+            elif shape == "many-tiny":
                 L = int(rng.choice([16, 32, 64]))
                 N = int(rng.choice([20000, 50000, 120000]))
                 olap = float(rng.choice([0.5, 0.9, 0.97]))
